@@ -12,6 +12,7 @@ pub fn generate(stream: &str, seed: u64, n: usize, emit: &mut dyn FnMut(String))
 	match stream {
 		"ser" | "ser-valid" | "ser-mut" | "ser-sink" => ser::generate(stream, seed, n, emit),
 		"crc" => crc::generate(seed, n, emit),
+		"rt" => ser::generate_rt(seed, n, emit),
 		"c11" => de::generate_c11(seed, n, emit),
 		"ocfw" | "ocfw-sink" => ocf::generate_w(stream, seed, n, emit),
 		"ocfr" | "ocfr-null" | "ocfr-damage" | "ocfd" => ocf::generate_r(stream, seed, n, emit),
@@ -26,6 +27,7 @@ pub fn run_line(line: &str) -> String {
 		"" => Ok(String::new()),
 		"ser" => ser::run(line),
 		"crc" => crc::run(line),
+		"rt" => ser::run_rt(line),
 		"de" => de::run(line),
 		"c11" => de::run_c11(line),
 		"ocfw" => ocf::run_w(line),
